@@ -730,3 +730,34 @@ def gen_ring_net(rnd, n=None):
     spec = {'ops': ops, 'node_types': {'rt': {'ops': ['rop'], 'over': {}}}, 'edge_types': {},
             'circ': {'name': 'top', 'nodes': {lab: 'rt' for lab in labels}, 'subs': {}, 'edges': edges}}
     return individualize(spec, rnd, params='different', vals=vals)
+
+
+def gen_chained_names_net(rnd):
+    """An operator that declares a variable X BEFORE a variable X_v1 (both its own), next to another operator that also has a
+    variable X and is parsed earlier: PyRates renames the second X to X_v1 and must rename the user's X_v1 as well (X_v1_v1) without
+    confusing the two.  One or two nodes; returns a spec."""
+    vals = Vals(rnd)
+    X = rnd.choice(['x', 'r', 'q', 'tau'])
+    Y = f'{X}_v1'
+    kind_x = rnd.choice(['const', 'const', 'state'])
+    opa = {'eqs': [['de', X, ['add', ['neg', ['mul', ['var', 'a'], ['var', X]]],
+                              ['mul', ['num', round(rnd.uniform(0.3, 1.2), 3)], ['call', 'tanh', ['var', X]]]]]],
+           'vars': {X: ['out', vals.new()], 'a': ['const', vals.new()]}}
+    eqs_b = [['de', Y, ['add', ['neg', ['mul', ['var', X], ['var', Y]]],
+                        ['mul', ['num', round(rnd.uniform(0.3, 1.2), 3)], ['call', 'sin', ['mul', ['var', 'c'], ['var', Y]]]]]]]
+    vars_b = {}
+    vars_b[X] = ['const', vals.new()] if kind_x == 'const' else ['var', vals.new()]
+    vars_b[Y] = ['out', vals.new()]
+    vars_b['c'] = ['const', vals.new()]
+    if kind_x == 'state':
+        eqs_b.append(['de', X, ['add', ['neg', ['mul', ['var', 'c'], ['var', X]]], ['mul', ['num', 0.5], ['var', Y]]]])
+    opb = {'eqs': eqs_b, 'vars': vars_b}
+    ops = {'opa0': opa, 'opb1': opb}
+    if rnd.random() < 0.5:
+        node_types = {'nt0': {'ops': ['opa0', 'opb1'], 'over': {}}}
+        nodes = {'n0': 'nt0'} if rnd.random() < 0.5 else {'n0': 'nt0', 'n1': 'nt0'}
+    else:
+        node_types = {'nt0': {'ops': ['opa0'], 'over': {}}, 'nt1': {'ops': ['opb1'], 'over': {}}}
+        nodes = {'n0': 'nt0', 'n1': 'nt1'}
+    spec = {'ops': ops, 'node_types': node_types, 'edge_types': {}, 'circ': {'name': 'top', 'nodes': nodes, 'subs': {}, 'edges': []}}
+    return individualize(spec, rnd, params='different', vals=vals)
